@@ -289,6 +289,17 @@ func vfRouterHistory(t *testing.T, rng *rand.Rand, nops int, style int) (lit str
 			P.OGTicks = 1
 			np = P.Dhi + 4 + rng.Intn(4)
 		}
+		if style == 11 {
+			// the first PRUNEs a topic ever sees come from a heartbeat that cuts an over-full mesh (two outbound peers were admitted
+			// beyond Dhi, so nothing was refused before) and that is an opportunistic-graft tick with low-scoring survivors: the
+			// peers just pruned must not be grafted again by the same heartbeat
+			for P.D == 0 {
+				P = vfRandParams(rng)
+			}
+			P.D, P.Dlo, P.Dhi, P.Dscore, P.Dout = 3, 2, 4, 0, 0
+			P.OGTicks, P.OGPeers = 1, 2
+			np = 6
+		}
 		if style == 10 {
 			// a direct peer subscribed to the topic when the node joins it: it is never grafted
 			for P.D == 0 {
@@ -332,6 +343,9 @@ func vfRouterHistory(t *testing.T, rng *rand.Rand, nops int, style int) (lit str
 		}
 		n := vfNewRouterNode(t, ctx, P, np)
 		ntopics := 1 + rng.Intn(2)
+		if style == 8 {
+			ntopics = 2 // the scenario needs both topics
+		}
 		// scripted prefix: forced values of r (the operation selector) with forced arguments
 		type forced struct {
 			r, p, tp int
@@ -341,6 +355,7 @@ func vfRouterHistory(t *testing.T, rng *rand.Rand, nops int, style int) (lit str
 		}
 		var script []forced
 		if style == 1 {
+			// (every heartbeat is an opportunistic-graft tick in half of these)
 			script = append(script, forced{r: 30, tp: 0}) // join first (nobody there yet)
 			for p := 0; p < np; p++ {
 				script = append(script, forced{r: 0, p: p})
@@ -369,6 +384,16 @@ func vfRouterHistory(t *testing.T, rng *rand.Rand, nops int, style int) (lit str
 				script = append(script, forced{r: 0, p: p})
 			}
 			script = append(script, forced{r: 30, tp: 0}, forced{r: 70}, forced{r: 40, tp: 0}, forced{r: 62, tp: 0}, forced{r: 30, tp: 0}, forced{r: 70})
+		}
+		if style == 11 {
+			script = append(script, forced{r: 30, tp: 0})
+			for p := 0; p < 6; p++ {
+				script = append(script, forced{r: 0, p: p, out: 1 + p/4})
+			}
+			for p := 0; p < 6; p++ {
+				script = append(script, forced{r: 45, p: p, tp: 0})
+			}
+			script = append(script, forced{r: 70}, forced{r: 70})
 		}
 		if style == 10 {
 			for p := 0; p < 4; p++ {
@@ -411,6 +436,13 @@ func vfRouterHistory(t *testing.T, rng *rand.Rand, nops int, style int) (lit str
 				script = append(script, forced{r: 0, p: p})
 			}
 			script = append(script, forced{r: 65, p: 0}, forced{r: 30, tp: 0}, forced{r: 55, p: 0, tp: 0, bo: 30}, forced{r: 65, p: 0}, forced{r: 70}, forced{r: 70})
+		}
+		if style == 12 {
+			// a fanout is picked, EVERY peer leaves (the fanout set is empty but still there), the topic is joined at once
+			for p := 0; p < 3; p++ {
+				script = append(script, forced{r: 0, p: p})
+			}
+			script = append(script, forced{r: 62, tp: 0}, forced{r: 20, p: 0}, forced{r: 20, p: 1}, forced{r: 20, p: 2}, forced{r: 30, tp: 0}, forced{r: 0, p: 0}, forced{r: 70})
 		}
 		if style == 5 {
 			// a fanout is picked, two of four peers leave, the topic is joined before the next heartbeat
@@ -483,6 +515,11 @@ func vfRouterHistory(t *testing.T, rng *rand.Rand, nops int, style int) (lit str
 			if rng.Intn(4) == 0 {
 				for k := 0; k < 1+rng.Intn(3); k++ {
 					n.scores[rng.Intn(np)] = []int{-2, -1, -1, 0, 0, 0, 1, 2, 2, 3, 4}[rng.Intn(11)]
+				}
+			}
+			if style == 11 && i == len(script)-2 {
+				for p := 0; p < 6; p++ {
+					n.scores[p] = []int{0, 0, 0, vfOGThreshold + 1, vfOGThreshold + 1, vfOGThreshold + 1}[p]
 				}
 			}
 			if style == 9 && i == len(script)-2 {
@@ -785,7 +822,7 @@ func TestVF_Router(t *testing.T) {
 	rng := vfRng(7)
 	ncases := vfN(160, 2000)
 	for c := 0; c < ncases; c++ {
-		style := []int{0, 0, 9, 1, 10, 2, 3, 4, 5, 6, 7, 8}[c%12]
+		style := []int{0, 1, 9, 1, 10, 2, 3, 4, 5, 6, 7, 8, 11, 12}[c%14]
 		lit, rec, nt := vfRouterHistory(t, rng, 25+rng.Intn(50), style)
 		cs.add(lit, rec, nt)
 		cs.kind(fmt.Sprintf("style%d", style))
